@@ -219,6 +219,11 @@ func upick(t *rapid.T, label string, n int) int {
 
 func genMut(t *rapid.T, e *extInfo, depth int) Mut {
 	ops := mutOps
+	if depth > 0 {
+		// inside an archive member (small metadata files): line- and token-level edits are
+		// the likely corruptions, so they are drawn three times as often
+		ops = append(append(append([]string{}, mutOps...), "delline", "dupline", "swapline", "deltok", "strempty", "scalar"), "delline", "dupline", "swapline", "deltok", "strempty", "scalar")
+	}
 	if e.Zip && depth == 0 {
 		ops = append(append([]string{}, mutOps...), zipOps...)
 		// zip formats: half of the mutations work inside the archive
